@@ -6,7 +6,7 @@ From Coq Require Import ZifyBool.
 
 Definition frame_ok (s s' : store) : Prop :=
   (forall t, tsz (s_toks s') t = tsz (s_toks s) t /\ txt s' t = txt s t) /\
-  (forall t, ~ In t (abs s) -> hnd s' t = hnd s t) /\ s_len s' = s_len s.
+  (forall t, ~ In t (abs s) -> tget (s_toks s') t = tget (s_toks s) t) /\ s_len s' = s_len s /\ s_id s' = s_id s.
 
 Lemma blocks_split_at s i b : nth_error (s_blocks s) i = Some b ->
   s_blocks s = firstn i (s_blocks s) ++ [b] ++ skipn (S i) (s_blocks s).
@@ -65,8 +65,8 @@ Proof.
   - intros b0 [<-|[]] _. split; [apply rebuild_blk_ok; assumption|].
     rewrite rebuild_toks, <- E. exact Hne.
   - split; [exact I'|]. split; [rewrite Ea', Ea; reflexivity|].
-    split; [intro t; split; [apply rebuild_tsz|apply rebuild_txt]|]. split; [|apply rebuild_len].
-    intros t Ht. apply rebuild_hnd_other. intro Hin. apply Ht. apply in_abs. exists b. auto.
+    split; [intro t; split; [apply rebuild_tsz|apply rebuild_txt]|]. split; [|split; [apply rebuild_len|apply rebuild_sid]].
+    intros t Ht. apply rebuild_tget_other. intro Hin. apply Ht. apply in_abs. exists b. auto.
 Qed.
 
 (* ---------- set_blk projections ---------- *)
@@ -181,10 +181,11 @@ Proof.
       * intro t. rewrite ubi_toksmap. unfold txt at 1. rewrite ubi_toksmap.
         change (s_toks s3) with (s_toks (rebuild s1 a)).
         change (t_text (tget (s_toks (rebuild s1 a)) t)) with (txt (rebuild s1 a) t). rewrite rebuild_tsz, rebuild_txt. auto.
-      * intros t Ht. rewrite ubi_hnd. change (hnd s3 t) with (hnd (rebuild s1 a) t).
-        rewrite rebuild_hnd_other; [reflexivity|]. rewrite T1a. intro Hin. apply Ht. rewrite Ea, Eold.
+      * intros t Ht. rewrite ubi_toksmap. change (s_toks s3) with (s_toks (rebuild s1 a)).
+        rewrite rebuild_tget_other; [reflexivity|]. rewrite T1a. intro Hin. apply Ht. rewrite Ea, Eold.
         apply in_or_app; right; apply in_or_app; auto.
-      * rewrite ubi_len. change (s_len s3) with (s_len (rebuild s1 a)). rewrite rebuild_len. reflexivity.
+      * rewrite ubi_len, ubi_sid. change (s_len s3) with (s_len (rebuild s1 a)). change (s_id s3) with (s_id (rebuild s1 a)).
+        rewrite rebuild_len, rebuild_sid. auto.
   - (* rebalance a and b *)
     set (len := Z.shiftr (zlen atoks) 1) in *.
     assert (len = zlen atoks / 2) as Elen by (unfold len; rewrite Z.shiftr_div_pow2 by lia; reflexivity).
@@ -249,10 +250,10 @@ Proof.
       * intro t. rewrite rebuild_tsz, rebuild_txt. unfold s4. rewrite rebuild_tsz, rebuild_txt. auto.
       * intros t Ht. assert (~ In t atoks) as Hn.
         { intro Hin. apply Ht. rewrite Ea, Eold. apply in_or_app; right; apply in_or_app; auto. }
-        rewrite rebuild_hnd_other.
-        -- unfold s4. rewrite rebuild_hnd_other; [reflexivity|]. rewrite T3a. intro Hin. apply Hn. eapply in_firstn; eassumption.
+        rewrite rebuild_tget_other.
+        -- unfold s4. rewrite rebuild_tget_other; [reflexivity|]. rewrite T3a. intro Hin. apply Hn. eapply in_firstn; eassumption.
         -- unfold s4. rewrite rebuild_toks, T3b. intro Hin. apply Hn. eapply in_skipn; eassumption.
-      * rewrite rebuild_len. unfold s4. rewrite rebuild_len. reflexivity.
+      * rewrite rebuild_len, rebuild_sid. unfold s4. rewrite rebuild_len, rebuild_sid. auto.
 Qed.
 
 (* ---------- branch 1: split ---------- *)
@@ -269,7 +270,7 @@ Proof.
   unfold split_block in H. fold (toks s b) (bidx s b) in H.
   destruct (build_blocks LF (length (toks s b)) s (bidx s b) (toks s b)) as [s1 r1] eqn:EB.
   destruct (build_blocks_spec LF HLF _ _ _ _ _ _ (le_n _) NDb EB) as (nbs & -> & HBB).
-  destruct HBB as (B1 & B2 & B3 & B4 & B5 & B6 & B7 & B8 & B9 & B10 & B11 & B12).
+  destruct HBB as (B1 & B2 & B3 & B4 & B5 & B6 & B7 & B8 & B9 & B10 & B11 & B12 & B13).
   assert (forall b0, In b0 (s_blocks s) -> bget (s_heap s1) b0 = bget (s_heap s) b0) as Hfr.
   { intros b0 H0. apply B6. apply (g_lt _ _ I); assumption. }
   change (b_index (bget (s_heap s1) b)) with (bidx s1 b) in H.
@@ -292,7 +293,7 @@ Proof.
   { intros x Hx. apply B4 in Hx. split; intro Hc;
       assert (In x (s_blocks s)) as Hin by (apply Hpp; apply in_or_app; auto); apply (g_lt _ _ I) in Hin; lia. }
   assert (NoDup (pre ++ nbs ++ post)) as ND' by (apply (nodup_mid_replace pre [b] nbs post ND B5 Hfresh)).
-  assert (forall t, ~ In t (toks s b) -> hnd s1 t = hnd s t) as Hh1 by (intros t Ht; unfold hnd; rewrite B12 by assumption; reflexivity).
+  assert (forall t, ~ In t (toks s b) -> hnd s1 t = hnd s t) as Hh1 by (intros t Ht; apply hnd_ext_tget; [exact B13|apply B12; assumption]).
   destruct (seg_replace (eq b) (fun _ => False) s (update_block_indexes s2 (Z.of_nat (i + length nbs)))
               pre [b] nbs post (flat_map (toks s) [b]) I E) as [I' Ea'].
   - discriminate.
@@ -329,8 +330,8 @@ Proof.
     + rewrite ubi_toks. intro Ee. contradiction.
   - split; [exact I'|]. split; [rewrite Ea', Ea; reflexivity|]. split; [|split].
     + intro t. rewrite ubi_toksmap. unfold txt at 1. rewrite ubi_toksmap. apply B11.
-    + intros t Ht. rewrite ubi_hnd. apply Hh1. intro Hin. apply Ht. apply in_abs. exists b. auto.
-    + rewrite ubi_len. exact B2.
+    + intros t Ht. rewrite ubi_toksmap. change (s_toks s2) with (s_toks s1). apply B12. intro Hin. apply Ht. apply in_abs. exists b. auto.
+    + rewrite ubi_len, ubi_sid. split; [exact B2|exact B13].
 Qed.
 
 (* ---------- _update_block ---------- *)
